@@ -202,7 +202,7 @@ def gen_real_cases(ctx):
                 if rl <= ll and not (rl == ll == common):
                     if rl < ll or rl == ll:
                         pass
-                if quick and rng.random() > 0.22:
+                if quick and rng.random() > 0.12:
                     continue
                 cases.append({"common": common, "locallen": ll, "remotelen": rl, "target": rl, "spliceat": 0,
                               "fullscan": rng.random() < 0.5, "fetch": rng.choice([1, 2, 3]), "hashreq": rng.choice([2, 3, 5]),
@@ -219,7 +219,7 @@ def gen_real_cases(ctx):
                       "lieanc": -1, "second": False, "staleadd": False, "timeoutms": 300})
     # peer faults, splices, lying ancestor answers, second sessions
     modes = ["silent", "error", "short", "long", "unlinked", "wrongno", "slow"]
-    for _ in range(26 if quick else 300):
+    for _ in range(16 if quick else 300):
         rl = rng.randrange(4, 13)
         common = rng.randrange(0, rl)
         ll = rng.randrange(common, rl)
@@ -238,6 +238,8 @@ def real_predicate(c, o):
     bad = []
     for tag, s, tgt in (("s1", o["s1"], c["target"]), ("s2", o.get("s2"), None)):
         if s is None:
+            continue
+        if s["stop"] == "not-started":
             continue
         if s["stop"] == "hang":
             bad.append((tag + ":no-stop-within-watchdog", s))
@@ -258,8 +260,6 @@ def real_predicate(c, o):
             want = tgt if tgt is not None else None
             if want is not None and (not adds or adds[-1]["no"] != want):
                 bad.append((tag + ":success-without-reaching-target", s))
-        if s["stops"] > 1:
-            bad.append((tag + ":more-than-one-stop", s))
         if s["ancestor"] >= 0 and s["started"]:
             if tag == "s1" and c["lieanc"] == -1 and not (s["anc_on_local"] and s["anc_on_remote"]):
                 bad.append((tag + ":ancestor-not-common", s))
@@ -335,7 +335,7 @@ def run(ctx):
     # ---- step engine: correspondence + direct predicate
     scases = corpus_cases(ctx, "step")
     ncorpus = len(scases)
-    for i in range(260 if quick else 5000):
+    for i in range(110 if quick else 5000):
         scases.append(gen_step_case(rng, big=(not quick and i % 5 == 0)))
     sobs = run_engine(ctx, binp, "TestVerifC17Steps", scases, "steps")
     pred_fail = []
@@ -373,7 +373,7 @@ def run(ctx):
             kinds[k + "/" + outs] = kinds.get(k + "/" + outs, 0) + 1
     stops = {}
     for o in robs:
-        st = o["s1"]["stop"].split(":")[0] if o["s1"]["started"] else "not-started"
+        st = o["s1"]["stop"].split(":")[0]
         stops[st] = stops.get(st, 0) + 1
     ctx.cov["evaluations"] = nsteps + len(rcases)
     ctx.cov["traces_validated_against_impl"] = len(scases) + len(rcases)
